@@ -31,9 +31,9 @@ PROPS = {
                 claim='absence of undefined behaviour (every CBMC safety check and every woven logical bound) on the whole parse path including the failure and recovery paths (lexical error in get_current_term, non-matching regex::expr::match, popping during recovery): the exact condition under which a constant evaluator must accept the evaluation; the parse path is one lowered text for all buffer kinds (R7)',
                 assumptions=["that g++'s and clang's constant evaluators and the compiled code compute the same function of a UB-free evaluation is the language standard (trusted)",
                              'buffer adaptors: cstring_buffer::iterator operators, begin/end and get_view of the three buffers are under contract (unit buffers) with std::string / std::string_view members read as (pointer, length) pairs and their iterators as pointers (standard-library meaning, trusted); the cstring_buffer constructor (pack-expanded copy_array) is a pattern fact only', LEXER]),
-    'C11': dict(units=['diag', 'state_analyzer', 'state_analyzer@small', 'glue', 'utils'],
+    'C11': dict(units=['diag', 'state_analyzer', 'state_analyzer@small', 'glue', 'utils', 'dfadiag'],
                 claim='write_state_diag_str prints for every term column exactly one action line of the kind the table entry has, with the rule number / target state of that entry (including the losing reduction of a resolved S/R conflict); the RULES list numbers rules as the action lines do; all name/rule/symbol indices in bounds; add_situation files an item under the symbol after its dot',
-                assumptions=['that the item sets and conflict flags in the table are the true LR(1) ones is C01 (transitions/closure not under contract)', 'text formatting is lowered to events (R10)', 'the DFA dump is not verified']),
+                assumptions=['that the item sets and conflict flags in the table are the true LR(1) ones is C01 (transitions/closure not under contract)', 'text formatting is lowered to events (R10)', 'DFA dump: f_range (a run of bytes is shown with its target, the ghost-chosen byte exactly when it is in the run) and the per-automaton loop (one line per state, in order) are under contract; the per-state writer write_dfa_state_diag_str is NOT (job does not finish): its contract is assumed where the loop uses it']),
     'C12': dict(units=['dfa', 'driver', 'stdex', 'state_analyzer', 'cvec_iter', 'glue'],
                 claim='dfa_size_analyzer arithmetic (prim/add/rep: {0} keeps the slice, {n} adds n-1 copies) under an explicit no-wrap precondition; cvector preconditions (size < N) as call-site obligations; stack/capacity of the driver; add_situation capacity preconditions',
                 assumptions=['analyser vs builder lock-step over the same parse is not mechanised; the builder (rep/cat/alt/...) is not under contract', 'sufficiency of the default table caps is a counting (pigeonhole) argument, not mechanised',
